@@ -46,6 +46,9 @@ func (e *CEnv) with(name string, v *Val) *CEnv {
 }
 
 var untypedInt = types.Typ[types.UntypedInt]
+
+// ghostIntArray is the type of ghost variables declared `intarray` (a mathematical map Int -> Int)
+var ghostIntArray types.Type = types.NewNamed(types.NewTypeName(0, nil, "ghostIntArray", nil), types.NewSlice(types.Typ[types.Int]), nil)
 var tInt = types.Typ[types.Int]
 var tBool = types.Typ[types.Bool]
 
@@ -349,6 +352,8 @@ func (fg *FnGen) evalIdent(name string, env *CEnv) *Val {
 		return v
 	}
 	switch name {
+	case "zeroarray":
+		return &Val{T: ghostIntArray, L: []Term{{"((as const (Array Int Int)) 0)", ArrSort(SInt)}}}
 	case "true":
 		return &Val{T: tBool, L: []Term{TTrue}}
 	case "false":
@@ -364,6 +369,9 @@ func (fg *FnGen) evalIdent(name string, env *CEnv) *Val {
 			var gt types.Type = tInt
 			if fg.compSorts[comp] == SBool {
 				gt = tBool
+			}
+			if fg.compSorts[comp] == ArrSort(SInt) {
+				gt = ghostIntArray
 			}
 			if T, ok := fg.ghostTypes[name]; ok {
 				gt = T
@@ -518,6 +526,22 @@ func (fg *FnGen) fieldLoc(l *Loc, name string) *Loc {
 	if !ok {
 		return nil
 	}
+	// ghost field?
+	for _, d := range fg.g.cs.Decls {
+		if d.Kind == "ghostfield" && len(d.Args) >= 2 {
+			tf := d.Args[0]
+			k := strings.LastIndex(tf, ".")
+			if k > 0 && tf[k+1:] == name && strings.HasSuffix(l.Prefix, tf[:k]) {
+				nl := *l
+				nl.Prefix = l.Prefix + ".$" + name
+				nl.T = tInt
+				if d.Args[1] == "bool" {
+					nl.T = tBool
+				}
+				return &nl
+			}
+		}
+	}
 	for i := 0; i < st.NumFields(); i++ {
 		f := st.Field(i)
 		if f.Name() == name {
@@ -606,6 +630,10 @@ func (fg *FnGen) tryEvalLoc(e CExpr, env *CEnv) (l *Loc) {
 
 func (fg *FnGen) evalIndex(x *CIdx, env *CEnv) (*Loc, *Val) {
 	xv := fg.evalC(x.X, env)
+	if xv.T == ghostIntArray && len(xv.L) == 1 {
+		idx := fg.evalC(x.I, env).one()
+		return nil, &Val{T: tInt, L: []Term{Select(xv.L[0], idx)}}
+	}
 	switch t := types.Unalias(xv.T).Underlying().(type) {
 	case *types.Slice:
 		idx := fg.evalC(x.I, env).one()
@@ -733,6 +761,28 @@ func (fg *FnGen) evalCall(x *CCall, env *CEnv) *Val {
 		}
 		a := fg.get(env.st, comp, ArrSort(SBool))
 		return &Val{T: tBool, L: []Term{Select(a, idx)}}
+	case "oldsel":
+		// oldsel(p, f): the value field f of *p had in the old state, with p evaluated in the current state
+		v := fg.evalC(x.Args[0], env)
+		l := fg.derefQuiet(v)
+		fl := fg.fieldLoc(l, x.Args[1].cstr())
+		if fl == nil {
+			panic(unsupported("oldsel: no field " + x.Args[1].cstr()))
+		}
+		return fg.loadIn(env.old, fl)
+	case "noneheld":
+		// this goroutine holds no mutex of the given kind (T.mu)
+		path := x.Args[0].cstr()
+		pkgPath := env.calleePkg
+		if pkgPath == "" || pkgPath == "<spec>" {
+			pkgPath = fnPkgPath(fg.fn)
+		}
+		pn := ""
+		if p := fg.g.allPkgs[pkgPath]; p != nil {
+			pn = p.Name + "."
+		}
+		a := fg.get(env.st, "held:"+pn+path, ArrSort(SBool))
+		return &Val{T: tBool, L: []Term{{fmt.Sprintf("(forall ((r! Int)) (not (select %s r!)))", a.S), SBool}}}
 	case "atomic":
 		// last observed/written value of an atomic field
 		l := fg.evalLoc(x.Args[0], env)
@@ -751,6 +801,11 @@ func (fg *FnGen) evalCall(x *CCall, env *CEnv) *Val {
 		mt := types.Unalias(m.T).Underlying().(*types.Map)
 		key := fg.mapKey(fg.evalC(x.Args[1], env))
 		return &Val{T: tBool, L: []Term{fg.mapHas(env.st, m, mt, key)}}
+	case "store":
+		a := fg.evalC(x.Args[0], env)
+		i := fg.evalC(x.Args[1], env).one()
+		v := fg.evalC(x.Args[2], env).one()
+		return &Val{T: ghostIntArray, L: []Term{Store(a.L[0], i, v)}}
 	case "cat":
 		a := fg.evalC(x.Args[0], env)
 		b := fg.evalC(x.Args[1], env)
@@ -835,6 +890,18 @@ func (fg *FnGen) evalCall(x *CCall, env *CEnv) *Val {
 	if sf.Result == "bool" {
 		rs = SBool
 		rT = tBool
+	} else if sf.Result != "int" && sf.Result != "" {
+		// typed result (single-leaf types only: pointers, named ints): allows field selection on it
+		pk := sf.PkgPath
+		if pk == "" {
+			pk = fnPkgPath(fg.fn)
+		}
+		if T := fg.g.resolveTypeString(sf.Result, pk); T != nil && len(layout(T)) == 1 {
+			rT = T
+			if layout(T)[0].Sort == SBool {
+				rs = SBool
+			}
+		}
 	}
 	f := fg.declareFun("spec_"+sf.Name, sorts, rs)
 	if len(flat) == 0 {
@@ -882,6 +949,30 @@ func (fg *FnGen) evalMod(e CExpr, env *CEnv) []modEntry {
 				}
 				fg.compSort("A:"+l.Prefix, ArrSort(sort))
 				return []modEntry{{comp: "A:" + l.Prefix, whole: true, src: e.cstr()}}
+			case "allof":
+				// whole component of a (ghost) field: allof(T.f)
+				path := c.Args[0].cstr()
+				pkgPath := env.calleePkg
+				if pkgPath == "" || pkgPath == "<spec>" {
+					pkgPath = fnPkgPath(fg.fn)
+				}
+				pn := ""
+				if p := fg.g.allPkgs[pkgPath]; p != nil {
+					pn = p.Name + "."
+				}
+				k := strings.LastIndex(path, ".")
+				comp := "H:" + pn + path
+				for _, d := range fg.g.cs.Decls {
+					if d.Kind == "ghostfield" && len(d.Args) >= 2 && d.Args[0] == path {
+						comp = "H:" + pn + path[:k] + ".$" + path[k+1:]
+						sort := ArrSort(SInt)
+						if d.Args[1] == "bool" {
+							sort = ArrSort(SBool)
+						}
+						fg.compSort(comp, sort)
+					}
+				}
+				return []modEntry{{comp: comp, whole: true, src: e.cstr()}}
 			case "elems":
 				v := fg.evalC(c.Args[0], env)
 				st, ok := types.Unalias(v.T).Underlying().(*types.Slice)
